@@ -231,7 +231,7 @@ Definition verdict (c : case) : list nat :=
        | None => true
        end) 17 ++
   (* guards *)
-  tag (g_static_nokey prep ids) 201 ++
+  tag (g_static_nokey prep ids) 201 ++     (* 201, 202 informational since /repo d3e6e19: such input is quoted *)
   tag (g_static_nocall prep) 202 ++
   tag (g_ctx_order wf) 203 ++          (* informational since /repo 4400919: not a guard any more *)
   tag (match output_tasks wf with [_] => true | _ => false end) 204 ++
